@@ -376,8 +376,9 @@ def main_check(prop, tier, runs=None, budget_s=None):
     # ---- violations: known findings, then the first unlisted one ----------
     agg["viols"].sort(key=lambda t: (t[0], t[1]["oracle"], t[1]["key"]))
     for ident in sorted(agg["known_seen"]):
-        print("KNOWN-FINDING: property=%s %s" % (prop,
-                                                 agg["known_seen"][ident]))
+        print("KNOWN-FINDING: property=%s %s [oracle=%s key=%s]" % (
+            prop, agg["known_seen"][ident], ident[0],
+            "/".join(str(x) for x in ident[1])))
     n_known = agg["n_known"]
     unlisted = agg["viols"][0] if agg["viols"] else None
     wall = time.monotonic() - t0
